@@ -365,10 +365,9 @@ func (p *parser) parseAssignExpression(id *ast.Identifier) ast.Expression {
 	p.nextToken()
 	ae.Value = p.parseExpression(LOWEST)
 
-	if p.peekTokenIs(token.SEMICOLON) {
-		p.nextToken()
-	}
-
+	// the ';' that ends the statement is left to the statement: stepping
+	// over it here lets the expression go on with whatever follows it
+	// ("a = 3; (f())" would call 3)
 	return ae
 }
 
